@@ -186,15 +186,13 @@ def doInner (l : Line) : Option String := do
 def doNorm (l : Line) : Option String := do
   let sp ← getSpace (R := Float) ratToFloat Float.ofNat l
   let x ← getEl sp toCF l "x"
-  if !sp.hasNorm then some "err:notimpl"
-  else some (showFloat (Space.norm floatOps floatRoots sp x))
+  some (showFloat (Space.norm floatOps floatRoots sp x))
 
 def doDist (l : Line) : Option String := do
   let sp ← getSpace (R := Float) ratToFloat Float.ofNat l
   let x ← getEl sp toCF l "x"
   let y ← getEl sp toCF l "y"
-  if !sp.hasDist then some "err:notimpl"
-  else some (showFloat (Space.dist floatOps floatRoots sp x y))
+  some (showFloat (Space.dist floatOps floatRoots sp x y))
 
 /-- fractions and weight the model derives for a `uniform_discr` space (exact) -/
 def doInfo (l : Line) : Option String := do
